@@ -7,7 +7,7 @@
    comb / fuel / the script [evs] quantify over every reader behaviour (arbitrary
    chunking, 0-byte reads, an error at any offset, data together with EOF/error).
    [matches_desc H dg sz bs] = length bs = sz /\ dg = alg:H alg bs /\ dg is a valid digest. *)
-From Oras Require Import Base.Prelude Generated.GC05 Model.Verify Proofs.Verify Proofs.VerifyComplete Proofs.VerifyProxy Proofs.VerifyFuel Proofs.VerifyConc Proofs.VerifyTop.
+From Oras Require Import Base.Prelude Generated.GC05 Model.Verify Proofs.Verify Proofs.VerifyComplete Proofs.VerifyProxy Proofs.VerifyFuel Proofs.VerifyConc Proofs.VerifyTop Proofs.VerifyWriter.
 
 (* ReadAll hands back data only when length and digest match and the reader held
    nothing else *)
@@ -140,6 +140,19 @@ Theorem C05_copybuffer :
     (b_lim src = None -> stream (b_evs src) = out).
 Proof. exact copy_buffer_sound. Qed.
 Print Assumptions C05_copybuffer.
+
+(* ioutil.CopyBuffer into a destination that fails or short-writes after any number of
+   bytes (io.CopyBuffer's write-error / io.ErrShortWrite handling): nil only if the
+   destination took every byte, and then it holds exactly the descriptor's bytes *)
+Theorem C05_copybuffer_faulty_destination :
+  forall (H : str -> str -> str) comb fuel src bufsz dg sz w out v w',
+    copy_buffer_w H comb true fuel src bufsz dg sz w = (((None, out), v), w') ->
+    copy_buffer H comb true fuel src bufsz dg sz = ((None, out), v) /\
+    (w_mode w <> None -> (length out <= w_left w)%nat) /\
+    matches_desc H dg sz out /\
+    (b_lim src = None -> stream (b_evs src) = out).
+Proof. exact copy_buffer_w_sound. Qed.
+Print Assumptions C05_copybuffer_faulty_destination.
 
 (* malformed or unsupported digest, negative size, reader shorter than Size, first
    Size bytes hashing to something else, bytes beyond Size: always an error *)
